@@ -227,7 +227,7 @@ def _unrolled(prog, adj, r):
         nm = 0
         for n in range(0, 3):
             for g in all_graphs(n):
-                for asg in itertools.product(range(n + 1), repeat=nargs):
+                for asg in itertools.product(range(n + 2), repeat=nargs):
                     nm += 1
                     got = _run_mutator(prog, f, adj, g, asg)
                     want = _spec_mutator(name, g, asg)
@@ -766,5 +766,18 @@ def run(prog, tier, seed):
                    'worklist conditions are necessary and, together, '
                    'sufficient for "X plus everything reachable"; they are '
                    'recognised on the interpreter\'s loop summary']
-    return T.results(r0, r1, r2, r3), expl, assumptions, \
+    # "for every directed graph G": nodes are arbitrary hashable objects;
+    # an ordering comparison / sort of nodes inside graph.py fails (TypeError)
+    # on graphs whose nodes are not mutually comparable
+    from ..report import adopt
+
+    def _opaque_nodes(prog):
+        from . import c06
+        r = c06.rule_opq1(prog)
+        r.findings = [f for f in r.findings
+                      if f.where.startswith(prog.module('graph').relpath)]
+        return r
+    dep = adopt(T.results(T(_opaque_nodes, prog)), PROP,
+                'graph.py treats nodes as opaque hashable values')
+    return T.results(r0, r1, r2, r3) + dep, expl, assumptions, \
         T.extra({'adjacency_field': adj})
